@@ -296,3 +296,18 @@ def make_contrib(c):
         if c[0] == 'lee':
             return C.LeeMieContribution(**c[1])
     raise ValueError(c)
+
+
+def install_ktables(tabs, weights, wn, Tg, Pg, mode='linear', dirname='ktables'):
+    """Write pickle k-table files (one per molecule; kcoeff[nP,nT,nW,ng] in cm^2) into a fresh
+    directory and switch the process to correlated-k mode through the real discovery path."""
+    from taurex.cache import GlobalCache
+    from taurex.cache.ktablecache import KTableCache
+    d = fresh_dir(dirname)
+    for mol, k in tabs.items():
+        write_pickle_ktable(os.path.join(d, '%s.pickle' % mol), mol, wn, Tg, Pg, k, weights)
+    GlobalCache()['xsec_interpolation'] = mode
+    GlobalCache()['opacity_method'] = 'ktables'
+    KTableCache().set_ktable_path(d)
+    KTableCache().clear_cache()
+    return d
